@@ -128,6 +128,8 @@ def gen_case(rng, tier):
 def sig_of(c, k, kind):
     st = c['steps'][k]
     s = {'kind': kind, 'step_op': st['op'], 'dir': c['dir'] if k > 1 else 'p2i'}
+    if st['op'] == 'fft':
+        s.update({'input_larger_than_grid': True, 'os': st['os']})
     if st['op'] == 'dft':
         d = c['steps'][1]
         s.update({'masked': st['mask']['k'] != 'none', 'os': st['os'],
@@ -182,6 +184,24 @@ def run(ctx):
     rng = random.Random(2002 + ctx.seed)
     n = 1400 if ctx.tier == 'quick' else 12000
     cases = [gen_case(rng, ctx.tier) for _ in range(n)]
+    # the FFT propagator on an input plane with MORE samples than its grid K = 1/alpha (an output pixel coarser than lambda*F#: samples
+    # K apart alias onto each other, and the Fraunhofer sum over the whole input plane is what the statement asks for)
+    for _ in range(40 if ctx.tier == 'quick' else 300):
+        Kr, Kc = rng.choice((4, 6, 8)), rng.choice((4, 6, 8))
+        N = 24 if (Kr == 6 or Kc == 6) else 16
+        if 8 in (Kr, Kc) and N == 24:
+            N = 48
+        m_, n_ = Kr + rng.choice((-1, 1, 2, 3)), Kc + rng.choice((0, 1, 2, 4))
+        os_ = rng.choice((1, 2))
+        dx = (Fr(1, 2),) * 2
+        z, lam = Fr(4), Fr(1, 128)
+        du = (lam * z * os_ / (Kr * dx[0]), lam * z * os_ / (Kc * dx[1]))
+        amp = np.array([[rng.choice((0, 1, 2, 3)) for _ in range(n_)] for _ in range(m_)])
+        amp[0, 0] = amp[-1, -1] = 1
+        opd = np.array([[rng.randrange(N) for _ in range(n_)] for _ in range(m_)])
+        sh = (rng.randint(1, max(1, Kr // os_)), rng.randint(1, max(1, Kc // os_)))
+        cases.append({'N': N, 'wf': ox.wf(lam), 'dir': 'p2i-fft',
+                      'steps': [ox.plane('Pupil', amp=amp, opd=opd, px=dx, z=z), ox.fft(du, sh, os_)]})
     for i, c in enumerate(cases):
         c['id'] = i
     spec, results = ox.eval_spec(cases)
@@ -190,6 +210,10 @@ def run(ctx):
     for c in cases:
         check(ctx, lentil, c, spec[c['id']])
         d = c['steps'][1]
+        if d['op'] == 'fft':
+            ctx.case(('fft-input-larger-than-grid', c['N'], len(c['steps'][0]['amp']['v']), len(c['steps'][0]['amp']['v'][0]), tuple(d['shape']), d['os'], str(d['du'])),
+                     nontrivial=True)
+            continue
         nontriv = d['pshape'] != d['shape'] or d['mask']['k'] != 'none' or d['os'] > 1 or d['du'][0] != d['du'][1]
         ctx.case(key_of(c), nontrivial=nontriv)
     for c in rng.sample(cases, 150 if ctx.tier == 'quick' else 1500):
